@@ -337,6 +337,11 @@ func vfH_C02_rules() {
 		if method == "HEAD" {
 			res.Body = http.NoBody
 		}
+		if code != 204 {
+			// as http.Transport hands it over: the origin's Content-Length stays in the header map also for
+			// bodiless replies (HEAD, 304), where it describes the representation
+			res.Header.Set("Content-Length", "3")
+		}
 		return res, nil
 	}
 	conn := martian.NewVfConn([]byte(method + " http://example.com/1 HTTP/1.1\r\nHost: example.com\r\n\r\n"))
@@ -347,6 +352,9 @@ func vfH_C02_rules() {
 		return
 	}
 	vfrt.Reach("rules-applied")
+	if code != 204 {
+		vfrt.Assert(res.Header.Get("Content-Length") == "3", "rules/content-length-of-the-representation-kept-also-on-bodiless-replies")
+	}
 	if customReason {
 		// the origin's own reason phrase reaches the client, also on the bodiless replies the proxy writes itself
 		vfrt.Assert(res.Status == status, "rules/reason-phrase-as-the-origin-sent-it")
